@@ -118,6 +118,29 @@ theorem empty_repeated_extension_emits_nothing (S : Schema) (num : Nat) (ty : Ty
     opsField S (extFD num ty true) (.many []) = .ok [] ∧ sizeField S (extFD num ty true) (.many []) = 0 :=
   C05.empty_list_emits_nothing S _
 
+/-- `SetExtension(m, E_x, []T{})`: the store HOLDS an empty list (Gogo / golang v1 then answer `HasExtension` = true,
+    google v2 answers false).  Whatever the descriptor's arm — one record per element (`Card.list`, what the templates
+    do whatever the declaration says) or one packed record (`Card.packed`, what a `[packed=true]` declaration asks
+    for) — nothing is written and nothing is counted: a list without elements is not on the wire, so `Size()` must not
+    reserve a key and a length for it either.  (The harness sets every repeated extension a value does not carry to an
+    empty non-nil list through the runtime's own `SetExtension`, on the message and on the messages nested in it;
+    corpus schema `extpacked` declares one `[packed=true]` extension per packable kind.) -/
+theorem set_to_empty_list_emits_nothing (S : Schema) (fd : FD) (s : XStore) :
+    opsField S fd (xget (xset s fd.num (.many [])) fd.num) = .ok [] ∧
+    sizeField S fd (xget (xset s fd.num (.many [])) fd.num) = 0 := by
+  rw [xget_set]
+  exact C05.empty_list_emits_nothing S fd
+
+/-- … hence a message whose extension was set to the empty list marshals like one whose extension was cleared -/
+theorem set_to_empty_list_like_cleared (S : Schema) (num : Nat) (ty : Ty) (s : XStore) :
+    opsField S (extFD num ty true) (xget (xset s num (.many [])) num) = opsField S (extFD num ty true) (xget (xclear s num) num) ∧
+    sizeField S (extFD num ty true) (xget (xset s num (.many [])) num) = sizeField S (extFD num ty true) (xget (xclear s num) num) := by
+  have h1 := set_to_empty_list_emits_nothing S (extFD num ty true) s
+  have h2 := cleared_extension_emits_nothing S num ty true s
+  have hn : (extFD num ty true).num = num := rfl
+  rw [hn] at h1
+  exact ⟨h1.1.trans h2.1.symm, h1.2.trans h2.2.symm⟩
+
 /-! ## C06 with extensions: round trip -/
 
 /-- extension descriptors never break the schema conditions of the round-trip theorems -/
